@@ -101,7 +101,12 @@ func FBP(reftree *tree.Tree, boottrees <-chan tree.Trees, cpus int, sup *Support
 	for i, count := range foundBoot {
 		if !edges[i].Right().Tip() {
 			//fmt.Printf("%d: %d/%d\n", i, count, ntrees)
-			edges[i].SetSupport(float64(count) / float64(ntrees))
+			if td, _ := edges[i].TopoDepth(); td > 1 {
+				edges[i].SetSupport(float64(count) / float64(ntrees))
+			} else {
+				// root branch beside a tip child of the root: same bipartition as that tip branch, no support (as in TBE)
+				edges[i].SetSupport(tree.NIL_SUPPORT)
+			}
 		}
 	}
 	return err
